@@ -241,7 +241,9 @@ class Tr:
                   "less": "less", "inner": "inner"}
         unary = {"abs": "abs", "absolute": "abs", "log": "log", "log10": "log10", "sqrt": "sqrt", "negative": "negative", "squeeze": "squeeze"}
         red = {"sum": "sum", "max": "max", "amax": "max", "min": "min", "amin": "min", "any": "any"}
-        if name in binary and len(args) == 2 and not kws:
+        if name in binary and len(args) == 2 and all(kw.arg == "dtype" for kw in kws):
+            if kws:
+                self.notes.append(f"dtype of np.{name} ignored (the model's numbers have one type)")
             return f"(Np.{binary[name]} {self.e(args[0])} {self.e(args[1])})"
         if name == "greater" and len(args) == 2 and not kws:
             return f"(Np.less {self.e(args[1])} {self.e(args[0])})"
